@@ -184,5 +184,6 @@ pub fn property() -> Property {
             direct: None,
         }],
         assumptions: &["under lazer Invert the per-prefix hold-note recount is not attempted (relations only)"],
+        enumerate: None,
     }
 }
